@@ -120,6 +120,30 @@ def run(ctx):
                         ctx.violation("monitor", "filter altered an entry of magnitude >= eps or broke symmetry", {"case": case, "eps": eps})
                 if not np.array_equal(gl._zero_small_elements(Th, 0), Th):
                     ctx.violation("monitor", "eps = 0 is not the identity", {"case": case})
+        # the library's own log-determinant of an MRF whose determinant leaves the double range
+        from fast_ticc.containers import model_state as _ms, arguments as _args
+        from fast_ticc import likelihood as _lk
+        for (N, W, var) in ((6, 5, 1e12), (6, 5, 1e-12), (10, 4, 1e11)):
+            n = N * W
+            X = rng.normal(size=(3 * n, n)) * np.sqrt(var)
+            S = np.atleast_2d(np.cov(X.T))
+            case = {"N": N, "W": W, "variance": var, "what": "library log-determinant"}
+            ctx.count("library-logdet")
+            ctx.mark_nontrivial(repr(case))
+            with ctx.guard("_update_cluster_covariances", case):
+                comp = admm.admm_optimize_theta(S, 0.11, W, N).theta
+                ua = _args.UserArguments(sparsity_weight=0.11, iteration_limit=1, label_switching_cost=1.0, min_cluster_size=1,
+                                         min_meaningful_covariance=0, num_clusters=1, num_processors=1, biased_covariance=False, window_size=W)
+                ms = _ms.ModelState.empty_model(ua, X)
+                c = gl._update_cluster_covariances(ms, ms.clusters[0], comp)
+                ref = np.linalg.slogdet(c.train_inverse)[1]
+                if not np.isfinite(c.log_determinant) or abs(c.log_determinant - ref) > 1e-9 * max(1.0, abs(ref)):
+                    ctx.violation("monitor", "log-determinant stored with the MRF is %r, the MRF's log-determinant is %r" % (float(c.log_determinant), float(ref)), {"case": case})
+                c.stacked_data_mean = X.mean(axis=0)
+                ms.clusters = [c]
+                tab = _lk.all_points_all_clusters_log_likelihood(ms, X[:5])
+                if not np.all(np.isfinite(tab)) or not np.isfinite(ms.clusters[0].log_determinant):
+                    ctx.violation("monitor", "likelihoods scored against a positive-definite MRF are not finite (log-det %r)" % float(ms.clusters[0].log_determinant), {"case": case})
         # (c) traced runs: every MRF scored against, every float of every result
         runs = e2e.cached_runs(ctx, e2e.standard_grid(ctx.seed, ctx.thorough), "std")
         sweep = []
